@@ -289,8 +289,23 @@ func main() {
 				m.Notes = append(m.Notes, nn)
 			}
 		}
-		if m.Rule == "" {
-			m.Rule, m.Assumptions = r.Rule, r.Assumptions
+		// A check may have several legs (different packages): keep every leg's rule and assumptions.
+		if r.Rule != "" && !strings.Contains(m.Rule, r.Rule) {
+			if m.Rule != "" {
+				m.Rule += " || "
+			}
+			m.Rule += r.Rule
+		}
+		for _, a := range r.Assumptions {
+			dup := false
+			for _, o := range m.Assumptions {
+				if o == a {
+					dup = true
+				}
+			}
+			if !dup {
+				m.Assumptions = append(m.Assumptions, a)
+			}
 		}
 	}
 	if len(m.Samples) > 8 {
